@@ -29,6 +29,38 @@ def args_are(ck, rule, s, want, what):
         ck.violation(rule, "%s|%s" % (rule, what), s.where(), "%s is called with (%s), expected (%s)" % (what, ", ".join(a), ", ".join(want)))
 
 
+def single_cr_drop(ck, facts, rule="F1b.only-one-cr-dropped"):
+    """in HttpHeader::parse's line loop the line end found at the LF is moved back at most once (the CR of CRLF): every further CR stays in the line, so the
+    bare-CR / CR-only-line / obs-fold guards below still see it"""
+    hp = [f for f in facts.fns("HttpHeader::parse") if "ContentLengthInterpreter" in f.sig and "bool" not in f.sig]
+    ck.need(len(hp) == 1, "%s: HttpHeader::parse(const char*, size_t, ContentLengthInterpreter&) not found" % ck.pid)
+    hp = hp[0]
+    # the line-end local: assigned from the result of memchr(.., '\n', ..) and decremented afterwards
+    decs = [ev for b in hp.blocks.values() for ev in b["ev"] if ev.get("e") == "asg" and ev.get("op") in ("--", "-=") and E.strip(ev["lhs"]).get("dk") == "local"]
+    ends = sorted({E.strip(ev["lhs"])["d"] for ev in decs})
+    ck.need(len(ends) == 1, "%s: expected exactly one decremented line-end local in HttpHeader::parse, found %s" % (ck.pid, ends))
+    end = ends[0]
+
+    def count(ev, env, fs):
+        if ev.get("e") == "asg" and E.m_is_ref(end)(ev.get("lhs")):
+            if ev.get("op") in ("--", "-="):
+                env["$dec"] = min(2, env.get("$dec", 0) + 1)
+            else:
+                env["$dec"] = 0
+    fl = ck.flow(hp, on_event=count)
+    sites = [st for st in fl.sites if st.ev.get("e") == "asg" and E.m_is_ref(end)(st.ev.get("lhs")) and st.ev.get("op") in ("--", "-=")]
+    ck.need(sites, "%s: HttpHeader::parse no longer drops the CR of a CRLF line end" % ck.pid)
+    for st in sites:
+        if st.env.get("$dec", 0) == 0:
+            ck.ok(rule, st.where(), "the line end is moved back once per line (only the CR of CRLF)")
+        else:
+            ck.violation(rule, "%s|HttpHeader::parse|line-end-moved-back-repeatedly" % rule.split(".")[0], st.where(),
+                         "HttpHeader::parse can move `%s` back more than once for one line: several CRs before the LF are dropped silently, so `Content-Length: 5\\r\\r\\n` "
+                         "bypasses the bare-CR / CR-only-line rejections that follow" % end, fl.witness(st))
+        if st.ev.get("op") == "-=" and E.const(st.ev.get("rhs")) != 1:
+            ck.violation(rule, "%s|HttpHeader::parse|line-end-step" % rule.split(".")[0], st.where(), "the line end is moved back by %s" % E.key(st.ev.get("rhs")))
+
+
 def run(ck):
     facts = ck.facts(["src/HttpHeader.cc"], whole=False)
     hdr = facts.enum("Http::HdrType")
@@ -84,6 +116,9 @@ def run(ck):
 
     # ------------------------------------------------------------------ HttpHeaderEntry::parse
     ep = facts.fn(HE + "parse")
+    ck.rule("F1b HttpHeader::parse drops exactly one CR in front of the LF that ends a line (per line the line-end local is moved back at most once and by one); "
+            "any other CR stays visible to the bare-CR, CR-only-line and folded Content-Length/Transfer-Encoding guards")
+    single_cr_drop(ck, facts)
     ck.rule("F2 HttpHeaderEntry::parse: after an empty name / colon beyond the field / name or value longer than 65534 / whitespace before the colon in a request / "
             "whitespace that may not be stripped / a non-TCHAR name byte every path returns nullptr; a non-null return needs a non-empty name and no whitespace before the "
             "colon or a non-request owner; trimming moves the value bounds only under start < end on whitespace; the value is assign(start, end - start), the name "
